@@ -85,6 +85,11 @@ def vacuity(cases, strict):
                     n[t + ':table'] += 1
                 if any(s[2] for s in it['st']):
                     n[t + ':nowrap'] += 1
+            # register prefixes (any colon-terminated word): families, case, one letter, unprefixed registers behind
+            # them, prefix / table changing in mid list - counted where the tool produced output that is judged
+            if it['name'] == 'regs' and c['out']:
+                for pc in it.get('pcls', ()):
+                    n['%s:reg-prefix:%s' % (t, pc)] += 1
             # tables with cells that span rows / columns / both, transparent cells, header cells below the first row
             place = 'reg' if it['name'] == 'regs' else 'ins' if it['t'] == 'G' else 'par'
             for tb in it['tabs']:
@@ -143,6 +148,7 @@ def vacuity(cases, strict):
     need += ['skool:brace:close-then-open', 'skool:closing-brace-ends-at-W', 'skool:closing-brace-pushed-from-full-line']
     need += ['%s:reg-%s' % (t, k) for t in ('asm', 'html', 'skool') for k in ('tab', 'list', 'tight-asm', 'tight-skool', 'plain')]
     need += ['%s:ins-%s' % (t, k) for t in ('asm', 'html', 'skool') for k in ('tab', 'list')]
+    need += ['%s:reg-prefix:%s' % (t, k) for t in ('asm', 'html', 'skool') for k in wrapdrv.PREFIX_CLASSES]
     need += ['asm:reg-tab:' + k for k in wrapdrv.WCLS + ['exact', 'wrap']] + ['asm:ins-tab:' + k for k in wrapdrv.WCLS[:7]]
     need += ['asm:%s-table-%s' % (p, k) for p in ('reg', 'ins') for k in ('fits-exactly', 'fits', 'over-by-1', 'over')]
     need += ['asm:reg-table-in-band', 'asm:reg-table-in-band-warned']
@@ -237,6 +243,11 @@ def run(tier):
                            inputs=wrapdrv.reproduce(d['seed'], d['docid'], d['W'], d['kind'], wd),
                            exp=c['exp'][int(ei) - 1] if ei and int(ei) <= len(c['exp']) else None, out=c['out']))
     counts = vacuity(cases, strict=not rep.violations)
+    # entry pages judged whose register section has a prefix that begins with a letter other than I / O
+    non_io_html = counts['html:reg-prefix:non-io']
+    rep.extra['html_cases_with_non_io_register_prefix'] = non_io_html
+    if not non_io_html:
+        raise MachineryError('C18: no entry page with a register prefix other than I*/O* was judged on the HTML route')
     rep.drift = drift + len(bare_lf) + len(narrow)
     rep.extra['drift_wrap_points_or_row_packing'] = drift
     rep.extra['drift_table_not_narrowed_to_narrower_place'] = dict(
@@ -265,7 +276,10 @@ def run(tier):
     rep.sample({k: cases[1][k] for k in ('key', 'tool', 'W', 'cwmin')} | {'exp0': cases[1]['exp'][0], 'out0': cases[1]['out'][:2]})
     rep.extra['class_counts'] = {k: v for k, v in sorted(counts.items())}
     rep.extra['documents'] = len(specs)
-    rep.rule = ('documents of unique word tokens (titles, paragraphs, registers with prefixes/delimited names, start/mid/end '
+    rep.rule = ('documents of unique word tokens (titles, paragraphs, registers with prefixes - Input/Output/In/I/O, other '
+                'I*/O* words, words with any other first letter in either case, one letter; first register with or without '
+                'one, unprefixed registers behind prefixed ones, prefix and table changing in mid list, back to input - and '
+                'delimited names, start/mid/end '
                 'comments, groups of 1..6 instructions, braces in every allowed position, #LIST/#TABLE with wrap flags) x '
                 'every line width 40..200 (sweep documents whose last comment line ends at avail-0..3 for skool2asm and '
                 'sna2skool) + random widths/instruction widths/indent/tab/crlf/comment-width-min; each document through '
